@@ -227,6 +227,7 @@ LEVEL_NOTE = ('Dask and NumPy can differ through the window dependence of the sw
 # ----------------------------------------------------------------------------------------------
 def effective_chunks(chunks, pad):
     """chunks dask really uses: map_overlap merges chunks smaller than the halo"""
+    pad = min(pad, sum(chunks))             # a depth beyond the axis is outside the domain; keep the helper total
     if pad <= 0:
         return list(chunks)
     from dask.array.overlap import ensure_minimum_chunksize
@@ -455,17 +456,26 @@ KEY_WINDOW = 'heuristic-window-dependence'
 
 
 def correct_halos(case):
-    """halo depths (rows, columns) that contain every cell within max_distance of a block, from the property text alone:
-    a cell k steps away along an axis is within reach iff k * cellsize <= max_distance, so floor(max_distance / cellsize) is the
-    least correct depth and rounding up to whole cells the other candidate; cell sizes from the coordinates themselves"""
+    """halo depths (rows, columns) that contain every cell within max_distance of a block, from the property text alone and
+    measured the way the outputs are: along one axis a cell k steps away is within reach iff its float32 distance (from the
+    raster's own coordinates) is <= max_distance; the largest such k is the least correct depth, one more cell the other
+    candidate.  (Dividing max_distance by a cell size in exact arithmetic would be one short for 1.0 / 0.2-like quotients.)"""
     md = case['max_distance']
     if md in ('inf', None) or is_fallback(case):
         return None
-    xs, ys = case['xs'], case['ys']
-    cx = abs(float(xs[-1]) - float(xs[0])) / (len(xs) - 1)
-    cy = abs(float(ys[-1]) - float(ys[0])) / (len(ys) - 1)
-    qy, qx = Fraction(float(md)) / Fraction(cy), Fraction(float(md)) / Fraction(cx)
-    return sorted({math.floor(qy), math.ceil(qy)}), sorted({math.floor(qx), math.ceil(qx)})
+    md = float(md)
+    lim = max(md, c06.f32(md))
+
+    def reach(coords):
+        cs = [float(v) for v in coords]
+        best = 0
+        for i in range(len(cs)):
+            for j in range(i + 1, len(cs)):
+                if c06.f32(abs(cs[j] - cs[i])) <= lim:
+                    best = max(best, j - i)
+        return best
+    hy, hx = reach(case['ys']), reach(case['xs'])
+    return [hy, hy + 1], [hx, hx + 1]
 
 
 def block_of(sizes, k):
